@@ -859,13 +859,44 @@ pub fn c07(rep: &mut Report) {
         agg
     });
     rep.agg.merge(a);
+    // runs of any size are ONE request: k adjacent chunks of 8 MiB (k = 1..=9: 8 .. 72 MiB per run), then a gap and
+    // one more chunk; served from a virtual hole of zeros
+    {
+        let mut agg = Agg::default();
+        let lab = HttpLab::new();
+        let csz = 8usize << 20;
+        let head: Vec<u8> = (0..761u32).map(|i| (i % 251) as u8).collect();
+        for k in 1..=9usize {
+            let mut ranges: Vec<(u64, usize)> = (0..k).map(|i| (761 + (i * csz) as u64, csz)).collect();
+            ranges.push((761 + ((k + 1) * csz) as u64, csz));
+            lab.server.arm_hole(761, ((k + 3) * csz) as u64, &head, Script { faults: vec![], splits: vec![], keep_alive: true });
+            lab.pooled.set(true);
+            let items = lab.read_chunks(&ranges, 0);
+            let log = lab.server.log();
+            agg.add("subsets", 1);
+            agg.add("large_run_cases", 1);
+            let want: Vec<Option<(u64, u64)>> = runs_of(&ranges).iter().map(|r| Some((r.0, r.1 - 1))).collect();
+            let got: Vec<Option<(u64, u64)>> = log.iter().map(|l| l.range).collect();
+            let detail = || json!({"layout": "large-runs", "chunk_size": csz, "chunks_in_first_run": k, "requests": got, "expected": want});
+            if got != want {
+                let class = if got.len() > want.len() { "adjacent-chunks-not-coalesced" } else if got.len() < want.len() { "non-adjacent-chunks-in-one-request" } else { "range-bounds-wrong" };
+                agg.viol(class, detail);
+            } else if items.len() != ranges.len() || items.iter().any(|i| !matches!(i, Item::Bytes(b) if b.len() == csz && b.iter().all(|&x| x == 0))) {
+                agg.viol("wrong-chunk-data", detail);
+            }
+        }
+        rep.agg.merge(agg);
+    }
     chunk_stream_leg(rep);
+    // the real clone_cmd over HTTP with seeds and prior outputs (in place): what is missing is decided by
+    // the reference clone model, not by the index the clone itself keeps
+    crate::clilegs::run(rep, crate::clilegs::Which::C07, false);
     rep.set("chunks", json!(n));
     rep.set("layouts", json!(layouts.iter().map(|l| l.0.clone()).collect::<Vec<_>>()));
     rep.set("evaluations", json!(rep.agg.get("subsets")));
     rep.set("distinct_nontrivial", json!(rep.agg.distinct_count("request_patterns")));
     rep.set("exhaustive", json!(true));
-    rep.set("rule", json!("every subset (2^n) of the descriptors of four archive layouts (contiguous; with gaps; descriptor order != file order; contiguous with a chunk straddling offset 2^32) is requested through the real HttpReader::read_chunks in descriptor order against a logging loopback server, with and without keep-alive, half of the contiguous layout's subsets with the response bodies flushed at (or one byte past) every chunk boundary; the same through Archive::chunk_stream on real archives whose sources repeat chunks (all subsets of the unique chunks); oracle: logged Range sequence == maximal runs of list- and offset-adjacent missing chunks with inclusive bounds first.offset .. last.end-1; non-trivial = distinct expected request patterns"));
+    rep.set("rule", json!("every subset (2^n) of the descriptors of four archive layouts (contiguous; with gaps; descriptor order != file order; contiguous with a chunk straddling offset 2^32) is requested through the real HttpReader::read_chunks in descriptor order against a logging loopback server, with and without keep-alive, half of the contiguous layout's subsets with the response bodies flushed at (or one byte past) every chunk boundary; runs of 1..9 adjacent chunks of 8 MiB (8 .. 72 MiB in one request); the same through Archive::chunk_stream on real archives whose sources repeat chunks (all subsets of the unique chunks), and through the real clone_cmd over HTTP for the seed / prior-output scenario families of C06 (missing chunks decided by the reference clone model); oracle: logged Range sequence == maximal runs of list- and offset-adjacent missing chunks with inclusive bounds first.offset .. last.end-1; non-trivial = distinct expected request patterns"));
     rep.assume("in the absence of transfer failures (C08 covers those); the library-level subset is induced directly through read_chunks exactly as Archive::chunk_stream builds it; the CLI leg induces subsets through seeds");
 }
 
